@@ -4,7 +4,9 @@
    `wf_chk = true` evaluated by Corr/C29.v on the pages the implementation wrote IS the property for that
    state (checked after every operation of every generated history).  (2) On the model of C28: the
    invariant (uniform depth, strictly increasing keys inside the separator bounds, page space accounting)
-   is preserved by every history outside the recorded defect classes; and compaction is unreachable. *)
+   is preserved by every in-scope history judged to its end (model of the code as repaired; no exception
+   class - a history in which the zero-separator panic F-C28-8 occurs is not judged to its end); and
+   compaction is unreachable. *)
 From Coq Require Import ZArith List Bool.
 From TV Require Import Lib.MachInt Gen.Varint Model.BTree Model.BTreeSpec Model.BTreeInv Model.BTreePages Model.BTreeWitness
   Proof.BTreePages Proof.BTreeDel Proof.BTreeMain.
@@ -18,18 +20,18 @@ Open Scope Z_scope.
 Theorem wf_chk_correct : forall (pg : pagemap) (root : Z), wf_chk pg root = true <-> WFP pg root.
 Proof. exact wf_chk_correct_l. Qed.
 
-(* model: every in-scope history outside the defect classes leaves a well-formed tree *)
+(* model: every in-scope history that an ordered map accepts to its end leaves a well-formed tree *)
 Theorem tree_wf_preserved :
   forall (V : Type) (vlen : V -> Z) (veqb : V -> V -> bool),
     (forall v, 0 <= vlen v) -> (forall v, veqb v v = true) ->
     forall (ops : list (op V)) (s : state V) (mf : omap V),
-      Inv V vlen s -> all_clear V (fst (run V vlen s ops)) = true ->
+      Inv V vlen s ->
       spec_final V vlen veqb (abs_of V s) (combine ops (map fst (fst (run V vlen s ops)))) = Some mf ->
       Inv V vlen (snd (run V vlen s ops)).
-Proof. intros V vlen veqb H1 H2 ops s mf H3 H4 H5. exact (proj1 (run_final_l V vlen veqb H1 H2 ops s mf H3 H4 H5)). Qed.
+Proof. intros V vlen veqb H1 H2 ops s mf H3 H4. exact (proj1 (run_final_l V vlen veqb H1 H2 ops s mf H3 H4)). Qed.
 
 (* frag_bytes is a u8: the compaction threshold (a quarter of the page) can never be exceeded, so the
-   space of deleted cells is never reclaimed - an observation about space, and the root of finding F-C28-6 *)
+   space of deleted cells is reclaimed only when a leaf loses its last cell (commit 09348e1) - an observation about space *)
 Theorem compaction_unreachable :
   forall (V : Type) (l : leaf V), 0 <= lfrag l <= 255 -> should_compact V l = false.
 Proof. exact compaction_unreachable_l. Qed.
@@ -52,7 +54,7 @@ Check tree_wf_preserved :
   forall (V : Type) (vlen : V -> Z) (veqb : V -> V -> bool),
     (forall v, 0 <= vlen v) -> (forall v, veqb v v = true) ->
     forall (ops : list (op V)) (s : state V) (mf : omap V),
-      Inv V vlen s -> all_clear V (fst (run V vlen s ops)) = true ->
+      Inv V vlen s ->
       spec_final V vlen veqb (abs_of V s) (combine ops (map fst (fst (run V vlen s ops)))) = Some mf ->
       Inv V vlen (snd (run V vlen s ops)).
 Check compaction_unreachable :
